@@ -387,19 +387,31 @@ func (rn *runner) exec(st step) {
 			return
 		}
 		// The application services its listeners before the transport goes away:
-		// no open, unserviced listener keeps two or more un-accepted forwards.
-		for _, x := range rn.ls {
-			if x == nil || x.eager || rn.closed(x) {
-				continue
-			}
-			for i := 0; i < 45; i++ {
+		// no open, unserviced listener keeps two or more un-accepted forwards
+		// (repeated to a fixpoint: one listener's backlog can hold up another's).
+		for pass := 0; pass < 100; pass++ {
+			progress := false
+			for _, x := range rn.ls {
+				if x == nil || x.eager || rn.closed(x) {
+					continue
+				}
 				e.mu.Lock()
 				n := e.unacceptedLocked(x)
 				e.mu.Unlock()
-				if n < 2 || !e.doAccept(x) {
-					break
+				if n >= 2 && e.doAccept(x) {
+					progress = true
 				}
 			}
+			if !progress {
+				break
+			}
+		}
+		e.mu.Lock()
+		still := e.backlogLocked(2, "")
+		e.mu.Unlock()
+		if still {
+			e.m.Count("conn_end_skipped_unserviced_backlog", 1)
+			return
 		}
 		if !e.settle() {
 			return
